@@ -3,6 +3,8 @@ component heap3:     real HeapBalancerSink vs Model/Heap.lean, spec `specC03` (A
 component aperture3: real ApertureBalancerSink / HeapBalancerSink behind base.py's gate (they inherit __Get) vs
                      Model/LBBase.lean over Model/Aperture.lean over Model/Heap.lean, spec `specC03A`
                      (Adapter/ApertureHeap.lean): the dispatch goes to a least-loaded open member of the aperture.
+                     "Outstanding" = dispatched and not completed, as in C04: a request that had timed out while it
+                     waited for the open result is not outstanding on the member it was handed to afterwards.
 Every case names its own component."""
 import heaprun
 import lbrun
